@@ -118,6 +118,45 @@ func cfgGoType(desc string, fields []cfgField) reflect.Type {
 	return t
 }
 
+// child fields (C10 rtc cases): kids = <ctypeHex>@<type>;<ctypeHex>@<type>  ('-' = none). The parent struct gets one more
+// field per entry, K<j> []<element struct> `child:"<ctype>"`, after the point fields.
+type cfgKid struct {
+	ctype  string
+	desc   string
+	fields []cfgField
+}
+
+func parseCfgKids(s string) []cfgKid {
+	var out []cfgKid
+	if s == "-" || s == "" {
+		return out
+	}
+	for _, ks := range strings.Split(s, ";") {
+		p := strings.SplitN(ks, "@", 2)
+		out = append(out, cfgKid{ctype: string(unhx(p[0])), desc: p[1], fields: parseCfgType(p[1])})
+	}
+	return out
+}
+
+func cfgGoTypeKids(desc string, fields []cfgField, kdesc string, kids []cfgKid) reflect.Type {
+	key := desc + "#" + kdesc
+	if t, ok := structCache[key]; ok {
+		return t
+	}
+	base := cfgGoType(desc, fields)
+	var fs []reflect.StructField
+	for i := 0; i < base.NumField(); i++ {
+		fs = append(fs, base.Field(i))
+	}
+	for j, k := range kids {
+		fs = append(fs, reflect.StructField{Name: fmt.Sprintf("K%d", j), Type: reflect.SliceOf(cfgGoType(k.desc, k.fields)),
+			Tag: reflect.StructTag(fmt.Sprintf(`child:%q`, k.ctype))})
+	}
+	t := reflect.StructOf(fs)
+	structCache[key] = t
+	return t
+}
+
 func setScalarText(v reflect.Value, k, s string) {
 	switch {
 	case k == "b":
